@@ -64,6 +64,7 @@ type Checker struct {
 	sums        map[*ssa.Function]*Summary
 	start       time.Time
 	verifDir    string
+	pm          *poolModel // constructor model of the pool allocator (rules_pool.go)
 }
 
 func newChecker(prop, tier string, seed int, verifDir string) *Checker {
